@@ -182,6 +182,7 @@ func c08Run(r *sim.Run) {
 		}
 		if t.Chance(250) {
 			v.EmptyMdat = 1 + t.Draw(3)
+			v.EmptyLarge = t.Bool()
 		}
 		if t.Chance(300) {
 			v.FreePad = 8 + t.Draw(24)
